@@ -244,6 +244,8 @@ func buildAlphabet(r *vh.Run) []outcome {
 	add("400/legacy/body-503", "4xx-body-mentions-retryable", kTerminal, legacy(400, "upstream said 503 Service Unavailable"))
 	add("401/legacy/body-code-500", "4xx-body-mentions-retryable", kTerminal, legacy(401, "error code 500"))
 	add("404/legacy/body-status-429", "4xx-body-mentions-retryable", kTerminal, legacy(404, "rate limiter answered status 429"))
+	add("400/legacy/body-refused", "4xx-body-mentions-retryable", kTerminal, legacy(400, "upstream dial tcp 10.0.0.1:80: connect: connection refused"))
+	add("400/legacy/body-eof", "4xx-body-mentions-retryable", kTerminal, legacy(400, "backend closed the stream: EOF"))
 	return out
 }
 
